@@ -154,6 +154,11 @@ pub enum TChoice {
     },
     #[serde(rename = "$text")]
     T(u16, i8),
+    /// a struct-like choice whose own content is text (`some <B>bold</B> text`)
+    B {
+        #[serde(rename = "$text", default)]
+        t: String,
+    },
 }
 #[derive(Serialize, Deserialize, PartialEq, Debug, Clone)]
 pub struct MixedTuples {
@@ -616,7 +621,7 @@ pub fn val_of(ty: Ty) -> BoxedStrategy<Val> {
         Ty::Tree => tree(4).prop_map(Val::Tree).boxed(),
         Ty::TextBool => any::<bool>().prop_map(|text| Val::TextBool(TextBool { text })).boxed(),
         Ty::ValueString => (any::<u8>(), elem_string()).prop_map(|(k, v)| Val::ValueString(ValueString { k, v })).boxed(),
-        Ty::MixedTuples => (any::<u8>(), prop::collection::vec(prop_oneof![2 => any::<u8>().prop_map(TChoice::E), 1 => any_string().prop_map(|y| TChoice::S { y }), 2 => (any::<u16>(), any::<i8>()).prop_map(|(a, b)| TChoice::T(a, b))], 0..7))
+        Ty::MixedTuples => (any::<u8>(), prop::collection::vec(prop_oneof![2 => any::<u8>().prop_map(TChoice::E), 1 => any_string().prop_map(|y| TChoice::S { y }), 2 => (any::<u16>(), any::<i8>()).prop_map(|(a, b)| TChoice::T(a, b)), 2 => elem_string().prop_map(|t| TChoice::B { t })], 0..7))
             .prop_map(|(k, v)| {
                 let mut items: Vec<TChoice> = vec![];
                 for c in v {
